@@ -1,4 +1,5 @@
 import DnpProofs.Lemmas.Bracket
+import DnpProofs.Lemmas.MapAxis
 set_option linter.unusedSectionVars false
 /-! Axis-index mechanisms (mapAlong / reduceDim / scaleAlong) read by name. -/
 namespace Dnp
@@ -48,7 +49,9 @@ theorem mapAlong_spec {d r : Data κ α} {dim : String} (h : List α → List α
     subst hr
     refine ⟨hm, rfl, ?_⟩
     intro ℓ hℓ hℓd
-    simp only [getN, mapAxis]
+    rw [show (mapAxis h m d.values (d.index dim)) = mapAxisSpec h m d.values (d.index dim) from
+          mapAxis_eq_spec h m d.values (d.index dim) (by rw [hd.shape_len]; exact index_lt hm)]
+    simp only [getN, mapAxisSpec]
     have hshape : setAt d.values.shape (d.index dim) m = d.dims.map (fun x => if x = dim then m else d.ext x) := by
       rw [hd.shape_named]; exact setAt_map_named hd.1 hm d.ext m
     rw [hshape, Arr.get_ofFn]
